@@ -42,6 +42,21 @@ theorem recursive_containers_grow_lazily :
 /-- the translator still recognises the decoders (the table is not vacuous) -/
 theorem sites_found : 15 ≤ sites.length := by decide
 
+/-! ## a reader holds its own input and nothing else
+
+    The models run a decoder on exactly its input (`P.run p bs`; sub-streams: a new reader over exactly
+    the blob).  On the Go side that is: the only function that stores into a reader's buffer is the
+    constructor, and no reader is kept beyond one decode (no field, package variable or pool of readers).
+    With these two facts the reset of `C04.pooled_history_is_per_input` is the replacing one. -/
+
+/-- no method of `DataInputX` (and no function of package io returning one) but `NewDataInputX` stores
+    into a reader's buffer, appends to it or moves its read position back -/
+theorem reader_buffer_set_only_by_constructor : bufferWriters = ["io.NewDataInputX"] := by decide
+
+/-- no reader outlives a decode: no struct field, package-level variable or type assertion (pool) of
+    type `DataInputX` in io, lang/**, util/hll -/
+theorem no_reader_outlives_a_decode : keptReaders = [] := by decide
+
 /-! ## the guards, interpreted (Golib.FailClosed.SiteCheck)
 
     `progs` is the transcription of every function that sizes an allocation from a decoded value.
